@@ -7,7 +7,7 @@ use crypto_bigint::rand_core::RngCore;
 use crypto_bigint::{BoxedUint, Int, Limb, NonZero, Odd, Random, RandomBits, Uint, Wrapping};
 
 /// Word script with zero blocks in front (NonZero rejection) and near-zero blocks.
-fn plain_script(t: &mut Tape, n: usize, c: &mut Case) -> Vec<u64> {
+pub(crate) fn plain_script(t: &mut Tape, n: usize, c: &mut Case) -> Vec<u64> {
     let mut out = vec![];
     match t.weighted(&[1, 3, 2, 1, 2]) {
         0 => c.label("stream: ChaCha only"),
@@ -38,7 +38,7 @@ fn plain_script(t: &mut Tape, n: usize, c: &mut Case) -> Vec<u64> {
     out
 }
 
-fn plain_case<const N: usize>(t: &mut Tape, c: &mut Case) -> CaseResult {
+pub(crate) fn plain_case<const N: usize>(t: &mut Tape, c: &mut Case) -> CaseResult {
     let d = 1 + t.weighted(&[3, 2, 1]);
     let script = words_to_bytes(&plain_script(t, N, c));
     let seed = t.u64();
